@@ -1306,3 +1306,866 @@ def walk(data, check_rle=False):
             raise WalkError("image RLE row table sums to %d, file holds %d" % (tot, n - p - 2 - rows * cw))
     out.append((K_IMAGE, p, n - p))
     return out
+
+
+# ----------------------------------------------------------------------------- Stage 2: modelled leaf payload classes (Psd/Leaf.v)
+# leaf desc: [tag, fields...]; tags below; strings are lists of UTF-16 code units, doubles 64-bit patterns
+LEAF_CODE = {"byte": 1, "integer": 2, "protected": 2, "short": 3, "bool": 4, "string": 5, "empty": 6, "bytes": 7,
+             "sectiondivider": 8, "sheetcolor": 9, "refpoint": 10, "restrictions": 11, "color": 12, "filtermask": 13,
+             "resbyte": 14, "resint": 15, "resshort": 16}
+
+
+def units_to_str(units):
+    return b"".join(int(u).to_bytes(2, "big") for u in units).decode("utf-16-be", "surrogatepass")
+
+
+def str_to_units(s):
+    b = s.encode("utf-16-be", "surrogatepass")
+    return [int.from_bytes(b[i:i + 2], "big") for i in range(0, len(b), 2)]
+
+
+def coq_leaf(l):
+    t = l[0]
+    zs = lambda x: coq_list(z, x)
+    if t == "byte":
+        return "(LByte %s)" % z(l[1])
+    if t in ("integer", "protected"):
+        return "(LInteger %s)" % z(l[1])
+    if t == "short":
+        return "(LShort %s)" % z(l[1])
+    if t == "bool":
+        return "(LBool %s)" % ("true" if l[1] else "false")
+    if t == "string":
+        return "(LString %s)" % zs(l[1])
+    if t == "empty":
+        return "LEmpty"
+    if t == "bytes":
+        return "(LBytes %s)" % coq_bytes(l[1])
+    if t == "sectiondivider":
+        return "(LSectionDivider %s %s %s %s)" % (z(l[1]), coq_opt(z, l[2]), coq_opt(z, l[3]), coq_opt(z, l[4]))
+    if t == "sheetcolor":
+        return "(LSheetColor %s)" % z(l[1])
+    if t == "refpoint":
+        return "(LReferencePoint %s)" % zs(l[1])
+    if t == "restrictions":
+        return "(LRestrictions %s)" % zs(l[1])
+    if t == "color":
+        return "(LColor %s %s)" % (z(l[1]), zs(l[2]))
+    if t == "filtermask":
+        return "(LFilterMask %s %s %s)" % (z(l[1]), zs(l[2]), z(l[3]))
+    if t == "resbyte":
+        return "(LResByte %s)" % z(l[1])
+    if t == "resint":
+        return "(LResInteger %s)" % z(l[1])
+    if t == "resshort":
+        return "(LResShort %s)" % z(l[1])
+    raise KeyError(t)
+
+
+def obj_leaf(l):
+    from psd_tools.constants import BlendMode, ColorSpaceID
+    from psd_tools.psd import base as B, tagged_blocks as T, image_resources as R
+    from psd_tools.psd.color import Color
+
+    t = l[0]
+
+    def color(i, vals):
+        try:
+            i = ColorSpaceID(i)
+        except ValueError:
+            pass
+        return Color(i, list(vals))
+
+    if t == "byte":
+        return B.ByteElement(l[1])
+    if t == "integer":
+        return B.IntegerElement(l[1])
+    if t == "protected":
+        return T.ProtectedSetting(l[1])
+    if t == "short":
+        return B.ShortIntegerElement(l[1])
+    if t == "bool":
+        return B.BooleanElement(l[1])
+    if t == "string":
+        return B.StringElement(units_to_str(l[1]))
+    if t == "empty":
+        return B.EmptyElement()
+    if t == "bytes":
+        return T.Bytes(bytes(l[1]))
+    if t == "sectiondivider":
+        return T.SectionDividerSetting(l[1], signature=None if l[2] is None else cc4(l[2]),
+                                       blend_mode=None if l[3] is None else BlendMode(cc4(l[3])), sub_type=l[4])
+    if t == "sheetcolor":
+        return T.SheetColorSetting(l[1])
+    if t == "refpoint":
+        return T.ReferencePoint([bits_dbl(q) for q in l[1]])
+    if t == "restrictions":
+        return T.ChannelBlendingRestrictionsSetting(list(l[1]))
+    if t == "color":
+        return color(l[1], l[2])
+    if t == "filtermask":
+        return T.FilterMask(color(l[1], l[2]), l[3])
+    if t == "resbyte":
+        return R.Byte(l[1])
+    if t == "resint":
+        return R.Integer(l[1])
+    if t == "resshort":
+        return R.ShortInteger(l[1])
+    raise KeyError(t)
+
+
+def c_leaf_o(o):
+    """canonical list of a payload object (twin of Corr.c_leaf), by class"""
+    from psd_tools.psd import base as B, tagged_blocks as T, image_resources as R
+    from psd_tools.psd.color import Color
+
+    cz = lambda v: c_list(lambda x: [int(x)], list(v))
+    if isinstance(o, R.Byte):
+        return [14, int(o.value)]
+    if isinstance(o, R.Integer):
+        return [15, int(o.value)]
+    if isinstance(o, R.ShortInteger):
+        return [16, int(o.value)]
+    if isinstance(o, B.BooleanElement):
+        return [4, int(bool(o.value))]
+    if isinstance(o, B.ByteElement):
+        return [1, int(o.value)]
+    if isinstance(o, B.ShortIntegerElement):
+        return [3, int(o.value)]
+    if isinstance(o, B.IntegerElement):
+        return [2, int(o.value)]
+    if isinstance(o, B.StringElement):
+        return [5] + cz(str_to_units(o.value))
+    if isinstance(o, B.EmptyElement):
+        return [6]
+    if isinstance(o, T.Bytes):
+        return [7] + c_bytes(o.value)
+    if isinstance(o, T.SectionDividerSetting):
+        return [8, int(o.kind)] + c_opt(lambda s: [fcc(s)], o.signature) + \
+            c_opt(lambda b: [fcc(b.value)], o.blend_mode) + c_opt(lambda t: [t], o.sub_type)
+    if isinstance(o, T.SheetColorSetting):
+        return [9, int(o.value)]
+    if isinstance(o, T.ReferencePoint):
+        return [10] + c_list(lambda x: [dbl_bits(x)], list(o))
+    if isinstance(o, T.ChannelBlendingRestrictionsSetting):
+        return [11] + cz(list(o))
+    if isinstance(o, Color):
+        return [12, int(o.id)] + cz(o.values)
+    if isinstance(o, T.FilterMask):
+        return [13, int(o.color.id)] + cz(o.color.values) + [o.opacity]
+    raise KeyError(type(o))
+
+
+def wf_leaf(l):
+    t = l[0]
+    if t == "bytes":
+        return len(l[1]) <= 4
+    if t == "sectiondivider":
+        if l[2] is not None and l[3] is not None:
+            return l[2] == SIG_8BIM
+        return l[2] is None and l[3] is None and l[4] is None
+    return True
+
+
+def run_leaf(l, pad, exc_code):
+    """-> (outcome list as Corr.leaf_outcome, info)"""
+    try:
+        o = obj_leaf(l)
+    except Exception as e:
+        return None, {"stage": "build", "err": e}
+    f = io.BytesIO()
+    try:
+        n = o.write(f, padding=pad, version=1)
+    except Exception as e:
+        return [exc_code(e)], {"stage": "write", "err": e, "obj": o}
+    b = f.getvalue()
+    out = [0, n, h63_list(0, list(b))]
+    info = {"stage": None, "obj": o, "bytes": b, "written": n}
+    try:
+        y = type(o).frombytes(b, version=1)
+    except Exception as e:
+        info.update(stage="read", err=e)
+        return out + [exc_code(e), int(wf_leaf(l))], info
+    cy = c_leaf_o(y)
+    info.update(reread=y, eq=bool(y == o), same_canon=cy == c_leaf_o(o))
+    f2 = io.BytesIO()
+    y.write(f2, padding=pad, version=1)
+    info["rewrite_same"] = f2.getvalue() == b
+    return out + [0, h63_list(0, cy), int(cy == c_leaf_o(o)), int(wf_leaf(l))], info
+
+
+def leaf_keys():
+    """kind code -> tagged-block keys (ints) registered for that class in the live TYPES"""
+    from psd_tools.psd import tagged_blocks as T
+
+    name_code = {"ByteElement": 1, "IntegerElement": 2, "ProtectedSetting": 2, "ShortIntegerElement": 3, "BooleanElement": 4,
+                 "StringElement": 5, "EmptyElement": 6, "Bytes": 7, "SectionDividerSetting": 8, "SheetColorSetting": 9,
+                 "ReferencePoint": 10, "ChannelBlendingRestrictionsSetting": 11, "Color": 12, "FilterMask": 13}
+    mods = ("psd_tools.psd.base", "psd_tools.psd.tagged_blocks", "psd_tools.psd.color")
+    out = {}
+    for k, c in T.TYPES.items():
+        if c.__name__ in name_code and c.__module__ in mods:
+            out.setdefault(name_code[c.__name__], []).append((fcc(k.value), c.__name__))
+    return out
+
+
+def leaf_tables():
+    from psd_tools.psd import image_resources as R
+
+    name_code = {"Byte": 14, "Integer": 15, "ShortInteger": 16, "Color": 12, "StringElement": 5}
+    tk = sorted((k, code) for code, l in leaf_keys().items() for k, _ in l)
+    rk = sorted((int(k), name_code[c.__name__]) for k, c in R.TYPES.items() if c.__name__ in name_code)
+    from psd_tools.constants import ColorSpaceID, SectionDivider, SheetColorType
+
+    return {"leaf_keys": tk, "leaf_resources": rk, "section_dividers": sorted(int(x) for x in SectionDivider),
+            "sheet_colors": sorted(int(x) for x in SheetColorType), "colorspace_lab": int(ColorSpaceID.LAB)}
+
+
+def gen_leaf_tables_v(t):
+    zz = lambda x: "(%d)%%Z" % int(x)
+    pl = lambda l: "[" + ";".join("(%s, %s)" % (zz(a), zz(b)) for a, b in l) + "]"
+    zl = lambda l: "[" + ";".join(zz(x) for x in l) + "]"
+    defs = [("leaf_keys", pl(t["leaf_keys"]), "model_leaf_keys"), ("leaf_resources", pl(t["leaf_resources"]), "model_leaf_resources"),
+            ("section_dividers", zl(t["section_dividers"]), "model_section_dividers"),
+            ("sheet_colors", zl(t["sheet_colors"]), "model_sheet_colors"), ("colorspace_lab", zz(t["colorspace_lab"]), "model_colorspace_lab")]
+    body = ""
+    for name, val, _ in defs:
+        body += "Definition gen_%s := %s.\n" % (name, val)
+    for name, _, model in defs:
+        body += "Lemma gen_%s_agree : gen_%s = %s. Proof. vm_compute. reflexivity. Qed.\n" % (name, name, model)
+    return body
+
+
+def g_leaf(rng):
+    t = rng.choice(["byte", "integer", "protected", "short", "bool", "string", "empty", "bytes", "sectiondivider", "sectiondivider",
+                    "sheetcolor", "refpoint", "restrictions", "color", "color", "filtermask", "resbyte", "resint", "resshort"])
+    if t == "byte" or t == "resbyte":
+        return [t, rng.choice([0, 1, 255, rng.randrange(256), 256 if rng.random() < 0.1 else 7])]
+    if t in ("integer", "protected"):
+        return [t, rng.choice([0, 1, 2 ** 32 - 1, 2 ** 31, rng.randrange(2 ** 32)])]
+    if t == "resint":
+        return [t, g_i32(rng)]
+    if t in ("short", "resshort"):
+        return [t, rng.choice([0, 1, 65535, rng.randrange(65536)])]
+    if t == "bool":
+        return [t, rng.random() < 0.5]
+    if t == "string":
+        n = rng.choice([0, 1, 2, 3, 7, 20])
+        return [t, [rng.choice([65, 0x3042, 0xD83D, 0xDE00, 0xFFFF, 0, 0xD800, rng.randrange(65536)]) for _ in range(n)]]
+    if t == "empty":
+        return [t]
+    if t == "bytes":
+        return [t, bytes(rng.randrange(256) for _ in range(rng.choice([4, 4, 4, 0, 3, 5, 9])))]
+    if t == "sectiondivider":
+        kind = rng.randrange(4)
+        shape = rng.randrange(6)
+        bm = rng.choice(blend_modes())
+        if shape == 0:
+            return [t, kind, None, None, None]
+        if shape == 1:
+            return [t, kind, SIG_8BIM, bm, None]
+        if shape in (2, 3):
+            return [t, kind, SIG_8BIM, bm, rng.choice([0, 1, 2 ** 32 - 1, rng.randrange(2 ** 32)])]
+        if shape == 4:
+            return [t, kind, SIG_8BIM, None, rng.choice([None, 1])]        # signature without blend mode
+        return [t, kind, None, None, 1]                                        # sub type alone
+    if t == "sheetcolor":
+        return [t, rng.randrange(12)]
+    if t == "refpoint":
+        n = 2 if rng.random() < 0.85 else rng.choice([0, 1, 3])
+        return [t, [g_dbl_bits(rng) for _ in range(n)]]
+    if t == "restrictions":
+        return [t, [g_u(rng, 4) for _ in range(rng.choice([0, 1, 2, 5]))]]
+    cid = rng.choice([0, 1, 2, 7, 7, 8, 3, 65535])
+    n = 4 if rng.random() < 0.85 else rng.choice([3, 5])
+    vals = [rng.choice([-32768, -1, 0, 32767]) if cid == 7 else g_u(rng, 2) for _ in range(n)]
+    if t == "color":
+        return [t, cid, vals]
+    return [t, cid, vals, g_u(rng, 2)]
+
+
+# ----------------------------------------------------------------------------- Stage 2: descriptor family (Psd/Descriptor.v)
+# dval desc: ["desc", os, name_units, cid_bytes, [[key_bytes, dval], ...]] | ["objarr", count, name, cid, items] |
+#  ["list", os, [dval,...]] | ["prop", name, cid, kid] | ["untf", unit, bits] | ["unfl", unit, [bits]] | ["doub", bits] |
+#  ["class", os, name, cid] | ["text", units] | ["enmr", name, cid, tid, en] | ["rele", name, cid, v] | ["bool", b] |
+#  ["comp", v] | ["int", os, v] | ["enum", tid, en] | ["raw", os, bytes] | ["name", name, cid, units]
+OSC = {k: fcc(k.encode("ascii")) for k in ["obj ", "Objc", "VlLs", "doub", "UntF", "UnFl", "TEXT", "enum", "long", "comp", "bool", "GlbO",
+                                          "type", "GlbC", "alis", "tdta", "ObAr", "Pth ", "prop", "Clss", "Enmr", "rele", "Idnt", "indx",
+                                          "name"]}
+
+
+def coq_key(k):
+    return coq_bytes(k)
+
+
+def coq_dval(d):
+    t = d[0]
+    zs = lambda x: coq_list(z, x)
+    items = lambda its: coq_list(lambda kv: "(%s, %s)" % (coq_key(kv[0]), coq_dval(kv[1])), its)
+    if t == "desc":
+        return "(DDesc %s %s %s %s)" % (z(d[1]), zs(d[2]), coq_key(d[3]), items(d[4]))
+    if t == "objarr":
+        return "(DObjArr %s %s %s %s)" % (z(d[1]), zs(d[2]), coq_key(d[3]), items(d[4]))
+    if t == "list":
+        return "(DList %s %s)" % (z(d[1]), coq_list(coq_dval, d[2]))
+    if t == "prop":
+        return "(DProperty %s %s %s)" % (zs(d[1]), coq_key(d[2]), coq_key(d[3]))
+    if t == "untf":
+        return "(DUnitFloat %s %s)" % (z(d[1]), z(d[2]))
+    if t == "unfl":
+        return "(DUnitFloats %s %s)" % (z(d[1]), zs(d[2]))
+    if t == "doub":
+        return "(DDouble %s)" % z(d[1])
+    if t == "class":
+        return "(DClass %s %s %s)" % (z(d[1]), zs(d[2]), coq_key(d[3]))
+    if t == "text":
+        return "(DString %s)" % zs(d[1])
+    if t == "enmr":
+        return "(DEnumRef %s %s %s %s)" % (zs(d[1]), coq_key(d[2]), coq_key(d[3]), coq_key(d[4]))
+    if t == "rele":
+        return "(DOffset %s %s %s)" % (zs(d[1]), coq_key(d[2]), z(d[3]))
+    if t == "bool":
+        return "(DBool %s)" % ("true" if d[1] else "false")
+    if t == "comp":
+        return "(DLargeInt %s)" % z(d[1])
+    if t == "int":
+        return "(DInt %s %s)" % (z(d[1]), z(d[2]))
+    if t == "enum":
+        return "(DEnum %s %s)" % (coq_key(d[1]), coq_key(d[2]))
+    if t == "raw":
+        return "(DRaw %s %s)" % (z(d[1]), coq_bytes(d[2]))
+    if t == "name":
+        return "(DName %s %s %s)" % (zs(d[1]), coq_key(d[2]), zs(d[3]))
+    raise KeyError(t)
+
+
+def unit_obj(code):
+    from psd_tools.terminology import Enum, Unit
+
+    b = cc4(code)
+    try:
+        return Unit(b)
+    except ValueError:
+        return Enum(b)
+
+
+def obj_dval(d):
+    from psd_tools.psd import descriptor as D
+
+    t = d[0]
+    S = units_to_str
+    items = lambda its: [(bytes(k), obj_dval(v)) for k, v in its]
+    if t == "desc":
+        cls = D.Descriptor if d[1] == OSC["Objc"] else D.GlobalObject
+        return cls(items=items(d[4]), name=S(d[2]), classID=bytes(d[3]))
+    if t == "objarr":
+        return D.ObjectArray(items=items(d[4]), items_count=d[1], name=S(d[2]), classID=bytes(d[3]))
+    if t == "list":
+        return (D.List if d[1] == OSC["VlLs"] else D.Reference)([obj_dval(v) for v in d[2]])
+    if t == "prop":
+        return D.Property(S(d[1]), bytes(d[2]), bytes(d[3]))
+    if t == "untf":
+        return D.UnitFloat(value=bits_dbl(d[2]), unit=unit_obj(d[1]))
+    if t == "unfl":
+        return D.UnitFloats(unit=unit_obj(d[1]), values=[bits_dbl(q) for q in d[2]])
+    if t == "doub":
+        return D.Double(bits_dbl(d[1]))
+    if t == "class":
+        return {OSC["type"]: D.Class1, OSC["GlbC"]: D.Class2, OSC["Clss"]: D.Class3}[d[1]](S(d[2]), bytes(d[3]))
+    if t == "text":
+        return D.String(S(d[1]))
+    if t == "enmr":
+        return D.EnumeratedReference(S(d[1]), bytes(d[2]), bytes(d[3]), bytes(d[4]))
+    if t == "rele":
+        return D.Offset(S(d[1]), bytes(d[2]), d[3])
+    if t == "bool":
+        return D.Bool(d[1])
+    if t == "comp":
+        return D.LargeInteger(d[1])
+    if t == "int":
+        return {OSC["long"]: D.Integer, OSC["Idnt"]: D.Identifier, OSC["indx"]: D.Index}[d[1]](d[2])
+    if t == "enum":
+        return D.Enumerated(bytes(d[1]), bytes(d[2]))
+    if t == "raw":
+        return {OSC["tdta"]: D.RawData, OSC["alis"]: D.Alias, OSC["Pth "]: D.Path}[d[1]](bytes(d[2]))
+    if t == "name":
+        return D.Name(S(d[1]), bytes(d[2]), S(d[3]))
+    raise KeyError(t)
+
+
+def kb(k):
+    return bytes(getattr(k, "value", k))
+
+
+def c_dval_o(o):
+    """canonical list of a descriptor value object (twin of Corr.c_dval)"""
+    from psd_tools.psd import descriptor as D
+
+    U = lambda s: c_list(lambda x: [x], str_to_units(s))
+    os = fcc(o.ostype.value)
+    its = lambda x: [len(x)] + [y for k in x for y in (c_bytes(kb(k)) + c_dval_o(x[k]))]
+    if isinstance(o, D.ObjectArray):
+        return [os, o.items_count] + U(o.name) + c_bytes(kb(o.classID)) + its(o)
+    if isinstance(o, D._DescriptorMixin):
+        return [os] + U(o.name) + c_bytes(kb(o.classID)) + its(o)
+    if isinstance(o, D.List):
+        return [os, len(o)] + [y for v in o for y in c_dval_o(v)]
+    if isinstance(o, D.Property):
+        return [os] + U(o.name) + c_bytes(kb(o.classID)) + c_bytes(kb(o.keyID))
+    if isinstance(o, D.UnitFloat):
+        return [os, fcc(o.unit.value), dbl_bits(o.value)]
+    if isinstance(o, D.UnitFloats):
+        return [os, fcc(o.unit.value)] + c_list(lambda x: [dbl_bits(x)], list(o.values))
+    if isinstance(o, D.Double):
+        return [os, dbl_bits(o.value)]
+    if isinstance(o, D.Class):
+        return [os] + U(o.name) + c_bytes(kb(o.classID))
+    if isinstance(o, D.String):
+        return [os] + U(o.value)
+    if isinstance(o, D.EnumeratedReference):
+        return [os] + U(o.name) + c_bytes(kb(o.classID)) + c_bytes(kb(o.typeID)) + c_bytes(kb(o.enum))
+    if isinstance(o, D.Offset):
+        return [os] + U(o.name) + c_bytes(kb(o.classID)) + [o.value]
+    if isinstance(o, D.Bool):
+        return [os, int(bool(o.value))]
+    if isinstance(o, (D.LargeInteger, D.Integer)):
+        return [os, int(o.value)]
+    if isinstance(o, D.Enumerated):
+        return [os] + c_bytes(kb(o.typeID)) + c_bytes(kb(o.enum))
+    if isinstance(o, D.RawData):
+        return [os] + c_bytes(o.value)
+    if isinstance(o, D.Name):
+        return [os] + U(o.name) + c_bytes(kb(o.classID)) + U(o.value)
+    raise KeyError(type(o))
+
+
+def c_dval_d(d):
+    """canonical list straight from the description (must equal c_dval_o(obj_dval(d)))"""
+    t = d[0]
+    U = lambda u: c_list(lambda x: [x], list(u))
+    its = lambda x: [len(x)] + [y for k, v in x for y in (c_bytes(k) + c_dval_d(v))]
+    if t == "desc":
+        return [d[1]] + U(d[2]) + c_bytes(d[3]) + its(d[4])
+    if t == "objarr":
+        return [OSC["ObAr"], d[1]] + U(d[2]) + c_bytes(d[3]) + its(d[4])
+    if t == "list":
+        return [d[1], len(d[2])] + [y for v in d[2] for y in c_dval_d(v)]
+    if t == "prop":
+        return [OSC["prop"]] + U(d[1]) + c_bytes(d[2]) + c_bytes(d[3])
+    if t == "untf":
+        return [OSC["UntF"], d[1], d[2]]
+    if t == "unfl":
+        return [OSC["UnFl"], d[1]] + U(d[2])
+    if t == "doub":
+        return [OSC["doub"], d[1]]
+    if t == "class":
+        return [d[1]] + U(d[2]) + c_bytes(d[3])
+    if t == "text":
+        return [OSC["TEXT"]] + U(d[1])
+    if t == "enmr":
+        return [OSC["Enmr"]] + U(d[1]) + c_bytes(d[2]) + c_bytes(d[3]) + c_bytes(d[4])
+    if t == "rele":
+        return [OSC["rele"]] + U(d[1]) + c_bytes(d[2]) + [d[3]]
+    if t == "bool":
+        return [OSC["bool"], int(d[1])]
+    if t == "comp":
+        return [OSC["comp"], d[1]]
+    if t == "int":
+        return [d[1], d[2]]
+    if t == "enum":
+        return [OSC["enum"]] + c_bytes(d[1]) + c_bytes(d[2])
+    if t == "raw":
+        return [d[1]] + c_bytes(d[2])
+    if t == "name":
+        return [OSC["name"]] + U(d[1]) + c_bytes(d[2]) + U(d[3])
+    raise KeyError(t)
+
+
+def wf_dval(d):
+    t = d[0]
+    ne = lambda k: len(k) > 0
+    its = lambda x: all(ne(k) and wf_dval(v) for k, v in x) and len({bytes(k) for k, _ in x}) == len(x)
+    if t in ("desc", "objarr"):
+        return ne(d[3]) and its(d[4])
+    if t == "list":
+        return all(wf_dval(v) for v in d[2])
+    if t == "prop":
+        return ne(d[2]) and ne(d[3])
+    if t == "class":
+        return ne(d[3])
+    if t == "enmr":
+        return ne(d[2]) and ne(d[3]) and ne(d[4])
+    if t in ("rele", "name"):
+        return ne(d[2])
+    if t == "enum":
+        return ne(d[1]) and ne(d[2])
+    return True
+
+
+def descriptor_env():
+    """(terms as sorted list of bytes, unit codes) from the live objects"""
+    from psd_tools.psd import descriptor as D
+    from psd_tools.terminology import Enum, Unit
+
+    terms = sorted(bytes(t) for t in D._TERMS)
+    units = sorted({fcc(u.value) for u in Unit} | {fcc(e.value) for e in Enum if len(e.value) == 4})
+    return terms, units
+
+
+def coq_env(terms, units):
+    return "[%s]" % ";".join(z(u) for u in units), "[%s]" % ";".join("[%s]" % ";".join(str(x) for x in t) for t in terms)
+
+
+def g_key(rng, terms):
+    r = rng.random()
+    if r < 0.45:
+        return bytes(rng.choice(terms))
+    if r < 0.7:
+        return bytes(rng.choice(b"abcdXYZ0 ") for _ in range(4))          # 4 bytes, usually not a term
+    if r < 0.97:
+        return bytes(rng.choice(b"abcdefXYZ019_") for _ in range(rng.choice([1, 2, 3, 5, 8, 13, 30])))
+    return b""                                                             # not well-formed
+
+
+def g_units16(rng):
+    n = rng.choice([0, 0, 1, 2, 5, 12])
+    return [rng.choice([65, 97, 0x3042, 0xD83D, 0xDE00, 0, rng.randrange(65536)]) for _ in range(n)]
+
+
+def g_dval(rng, terms, units, depth=0, kinds=None):
+    leafs = ["prop", "untf", "unfl", "doub", "class", "text", "enmr", "rele", "bool", "comp", "int", "enum", "raw", "name"]
+    conts = ["desc", "desc", "objarr", "list"]
+    t = rng.choice(kinds) if kinds else rng.choice(leafs + (conts if depth < 4 else []) * 2)
+    K = lambda: g_key(rng, terms)
+    U = lambda: g_units16(rng)
+    if t in ("desc", "objarr"):
+        n = rng.choice([0, 1, 2, 3, 5]) if depth < 3 else rng.choice([0, 1])
+        items, seen = [], set()
+        for _ in range(n):
+            k = K()
+            if k in seen:
+                continue
+            seen.add(k)
+            items.append([k, g_dval(rng, terms, units, depth + 1)])
+        if t == "desc":
+            return ["desc", rng.choice([OSC["Objc"], OSC["Objc"], OSC["GlbO"]]), U(), K(), items]
+        return ["objarr", g_u(rng, 4), U(), K(), items]
+    if t == "list":
+        n = rng.choice([0, 1, 2, 4])
+        return ["list", rng.choice([OSC["VlLs"], OSC["obj "]]), [g_dval(rng, terms, units, depth + 1) for _ in range(n)]]
+    if t == "prop":
+        return [t, U(), K(), K()]
+    if t == "untf":
+        return [t, rng.choice(units), g_dbl_bits(rng)]
+    if t == "unfl":
+        return [t, rng.choice(units), [g_dbl_bits(rng) for _ in range(rng.choice([0, 1, 3]))]]
+    if t == "doub":
+        return [t, g_dbl_bits(rng)]
+    if t == "class":
+        return [t, rng.choice([OSC["type"], OSC["GlbC"], OSC["Clss"]]), U(), K()]
+    if t == "text":
+        return [t, U()]
+    if t == "enmr":
+        return [t, U(), K(), K(), K()]
+    if t == "rele":
+        return [t, U(), K(), g_u(rng, 4)]
+    if t == "bool":
+        return [t, rng.random() < 0.5]
+    if t == "comp":
+        return [t, rng.choice([-2 ** 63, 2 ** 63 - 1, -1, 0, rng.randint(-2 ** 63, 2 ** 63 - 1)])]
+    if t == "int":
+        return [t, rng.choice([OSC["long"], OSC["Idnt"], OSC["indx"]]), g_i32(rng)]
+    if t == "enum":
+        return [t, K(), K()]
+    if t == "raw":
+        return [t, rng.choice([OSC["tdta"], OSC["alis"], OSC["Pth "]]), g_payload(rng)]
+    return ["name", U(), K(), U()]
+
+
+def run_dval(d, exc_code):
+    """-> (outcome as Corr.dval_outcome, info); reads with a COPY of the term set restored afterwards"""
+    from psd_tools.psd import descriptor as D
+
+    try:
+        o = obj_dval(d)
+    except Exception as e:
+        return None, {"stage": "build", "err": e}
+    t0 = set(D._TERMS)
+    f = io.BytesIO()
+    try:
+        n = o.write(f)
+    except Exception as e:
+        return [exc_code(e)], {"stage": "write", "err": e}
+    b = f.getvalue()
+    out = [0, n, h63_list(0, list(b))]
+    info = {"stage": None, "obj": o, "bytes": b, "written": n}
+    try:
+        y = type(o).frombytes(b)
+    except Exception as e:
+        D._TERMS.clear()
+        D._TERMS.update(t0)
+        info.update(stage="read", err=e)
+        return out + [exc_code(e), int(wf_dval(d))], info
+    grown = len(D._TERMS) - len(t0)
+    D._TERMS.clear()
+    D._TERMS.update(t0)
+    cy = c_dval_o(y)
+    co = c_dval_d(d)
+    f2 = io.BytesIO()
+    y.write(f2)
+    info.update(reread=y, eq=bool(y == o), same_canon=cy == co, rewrite_same=f2.getvalue() == b, grown=grown)
+    return out + [0, h63_list(0, cy), int(cy == co), grown, int(wf_dval(d))], info
+
+
+def c_dval_o_as_desc(o):
+    """canonical list of a DescriptorBlock(2) body, as the plain Descriptor ('Objc') it wraps"""
+    U = lambda s: c_list(lambda x: [x], str_to_units(s))
+    return [OSC["Objc"]] + U(o.name) + c_bytes(kb(o.classID)) + [len(o)] + \
+        [y for k in o for y in (c_bytes(kb(k)) + c_dval_o(o[k]))]
+
+
+def dval_of_obj(o):
+    """psd_tools descriptor value object -> description (inverse of obj_dval)"""
+    from psd_tools.psd import descriptor as D
+
+    U = str_to_units
+    os = fcc(o.ostype.value) if hasattr(o, "ostype") else OSC["Objc"]
+    its = lambda x: [[kb(k), dval_of_obj(x[k])] for k in x]
+    if isinstance(o, D.ObjectArray):
+        return ["objarr", o.items_count, U(o.name), kb(o.classID), its(o)]
+    if isinstance(o, D._DescriptorMixin):
+        return ["desc", OSC["GlbO"] if isinstance(o, D.GlobalObject) else OSC["Objc"], U(o.name), kb(o.classID), its(o)]
+    if isinstance(o, D.List):
+        return ["list", os, [dval_of_obj(v) for v in o]]
+    if isinstance(o, D.Property):
+        return ["prop", U(o.name), kb(o.classID), kb(o.keyID)]
+    if isinstance(o, D.UnitFloat):
+        return ["untf", fcc(o.unit.value), dbl_bits(o.value)]
+    if isinstance(o, D.UnitFloats):
+        return ["unfl", fcc(o.unit.value), [dbl_bits(x) for x in o.values]]
+    if isinstance(o, D.Double):
+        return ["doub", dbl_bits(o.value)]
+    if isinstance(o, D.Class):
+        return ["class", os, U(o.name), kb(o.classID)]
+    if isinstance(o, D.String):
+        return ["text", U(o.value)]
+    if isinstance(o, D.EnumeratedReference):
+        return ["enmr", U(o.name), kb(o.classID), kb(o.typeID), kb(o.enum)]
+    if isinstance(o, D.Offset):
+        return ["rele", U(o.name), kb(o.classID), o.value]
+    if isinstance(o, D.Bool):
+        return ["bool", bool(o.value)]
+    if isinstance(o, D.LargeInteger):
+        return ["comp", int(o.value)]
+    if isinstance(o, D.Integer):
+        return ["int", os, int(o.value)]
+    if isinstance(o, D.Enumerated):
+        return ["enum", kb(o.typeID), kb(o.enum)]
+    if isinstance(o, D.RawData):
+        if not isinstance(o.value, (bytes, bytearray)):
+            raise KeyError("RawData holding an object")
+        return ["raw", os, bytes(o.value)]
+    if isinstance(o, D.Name):
+        return ["name", U(o.name), kb(o.classID), U(o.value)]
+    raise KeyError(type(o))
+
+
+# ----------------------------------------------------------------------------- Stage 2: EffectsLayer (Psd/Effects.v)
+# color = [id, [4 values]]; effect descs:
+#  ["common", version, visible] | ["shadow", version, blur, intensity, angle, distance, color, blend, enabled, ug, opacity, native]
+#  ["oglow", version, blur, intensity, color, blend, enabled, opacity, native|None]
+#  ["iglow", version, blur, intensity, color, blend, enabled, opacity, invert|None, native|None]
+#  ["bevel", version, angle, depth, blur, hblend, sblend, hcol, scol, style, hop, sop, enabled, ug, dir, [real_h, real_s]|None]
+#  ["sofi", version, blend, color, opacity, enabled, native];   effects layer = [version, [[key, effect], ...]]
+FXK = {k: fcc(k.encode("ascii")) for k in ["cmnS", "dsdw", "isdw", "oglw", "iglw", "bevl", "sofi"]}
+FX_KIND = {"common": 1, "shadow": 2, "oglow": 3, "iglow": 4, "bevel": 5, "sofi": 6}
+FX_KEYS = {1: ["cmnS"], 2: ["dsdw", "isdw"], 3: ["oglw"], 4: ["iglw"], 5: ["bevl"], 6: ["sofi"]}
+
+
+def coq_col(c):
+    return "(%s, %s)" % (z(c[0]), coq_list(z, c[1]))
+
+
+def coq_effect(e):
+    t = e[0]
+    Z = lambda xs: " ".join(z(x) for x in xs)
+    if t == "common":
+        return "(FxCommon %s)" % Z(e[1:3])
+    if t == "shadow":
+        return "(FxShadow %s %s %s %s)" % (Z(e[1:6]), coq_col(e[6]), Z(e[7:11]), coq_col(e[11]))
+    if t == "oglow":
+        return "(FxOuterGlow %s %s %s %s)" % (Z(e[1:4]), coq_col(e[4]), Z(e[5:8]), coq_opt(coq_col, e[8]))
+    if t == "iglow":
+        return "(FxInnerGlow %s %s %s %s %s)" % (Z(e[1:4]), coq_col(e[4]), Z(e[5:8]), coq_opt(z, e[8]), coq_opt(coq_col, e[9]))
+    if t == "bevel":
+        return "(FxBevel %s %s %s %s %s)" % (Z(e[1:7]), coq_col(e[7]), coq_col(e[8]), Z(e[9:15]),
+                                              coq_opt(lambda r: "(%s, %s)" % (coq_col(r[0]), coq_col(r[1])), e[15]))
+    if t == "sofi":
+        return "(FxSolidFill %s %s %s %s)" % (Z(e[1:3]), coq_col(e[3]), Z(e[4:6]), coq_col(e[6]))
+    raise KeyError(t)
+
+
+def coq_effects(l):
+    return "(mkFX %s %s)" % (z(l[0]), coq_list(lambda ke: "(%s, %s)" % (z(ke[0]), coq_effect(ke[1])), l[1]))
+
+
+def obj_color(c):
+    from psd_tools.constants import ColorSpaceID
+    from psd_tools.psd.color import Color
+
+    i = c[0]
+    try:
+        i = ColorSpaceID(i)
+    except ValueError:
+        pass
+    return Color(i, list(c[1]))
+
+
+def obj_effect(e):
+    from psd_tools.psd import effects_layer as E
+
+    t = e[0]
+    C = obj_color
+    O = lambda c: None if c is None else C(c)
+    if t == "common":
+        return E.CommonStateInfo(e[1], e[2])
+    if t == "shadow":
+        return E.ShadowInfo(e[1], e[2], e[3], e[4], e[5], C(e[6]), cc4(e[7]), e[8], e[9], e[10], C(e[11]))
+    if t == "oglow":
+        return E.OuterGlowInfo(e[1], e[2], e[3], C(e[4]), cc4(e[5]), e[6], e[7], O(e[8]))
+    if t == "iglow":
+        return E.InnerGlowInfo(e[1], e[2], e[3], C(e[4]), cc4(e[5]), e[6], e[7], e[8], O(e[9]))
+    if t == "bevel":
+        r = e[15]
+        return E.BevelInfo(e[1], e[2], e[3], e[4], cc4(e[5]), cc4(e[6]), C(e[7]), C(e[8]), e[9], e[10], e[11], e[12], e[13], e[14],
+                           None if r is None else C(r[0]), None if r is None else C(r[1]))
+    if t == "sofi":
+        return E.SolidFillInfo(e[1], cc4(e[2]), C(e[3]), e[4], e[5], C(e[6]))
+    raise KeyError(t)
+
+
+def obj_effects(l):
+    from psd_tools.constants import EffectOSType
+    from psd_tools.psd.effects_layer import EffectsLayer
+
+    return EffectsLayer(items=[(EffectOSType(cc4(k)), obj_effect(e)) for k, e in l[1]], version=l[0])
+
+
+def c_col_o(c):
+    return [int(c.id)] + c_list(lambda x: [int(x)], list(c.values))
+
+
+def c_effect_o(o):
+    from psd_tools.psd import effects_layer as E
+
+    B = lambda b: fcc(b.value)
+    O = lambda c: c_opt(c_col_o, c)
+    if isinstance(o, E.CommonStateInfo):
+        return [1, o.version, o.visible]
+    if isinstance(o, E.ShadowInfo):
+        return [2, o.version, o.blur, o.intensity, o.angle, o.distance] + c_col_o(o.color) + \
+            [B(o.blend_mode), o.enabled, o.use_global_angle, o.opacity] + c_col_o(o.native_color)
+    if isinstance(o, E.OuterGlowInfo):
+        return [3, o.version, o.blur, o.intensity] + c_col_o(o.color) + [B(o.blend_mode), o.enabled, o.opacity] + O(o.native_color)
+    if isinstance(o, E.InnerGlowInfo):
+        return [4, o.version, o.blur, o.intensity] + c_col_o(o.color) + [B(o.blend_mode), o.enabled, o.opacity] + \
+            c_opt(lambda x: [x], o.invert) + O(o.native_color)
+    if isinstance(o, E.BevelInfo):
+        real = None if o.real_highlight_color is None and o.real_shadow_color is None else \
+            c_col_o(o.real_highlight_color) + c_col_o(o.real_shadow_color)
+        return [5, o.version, o.angle, o.depth, o.blur, B(o.highlight_blend_mode), B(o.shadow_blend_mode)] + \
+            c_col_o(o.highlight_color) + c_col_o(o.shadow_color) + \
+            [o.bevel_style, o.highlight_opacity, o.shadow_opacity, o.enabled, o.use_global_angle, o.direction] + \
+            c_opt(lambda x: x, real)
+    if isinstance(o, E.SolidFillInfo):
+        return [6, o.version, B(o.blend_mode)] + c_col_o(o.color) + [o.opacity, o.enabled] + c_col_o(o.native_color)
+    raise KeyError(type(o))
+
+
+def c_effects_o(o):
+    return [o.version] + c_list(lambda k: [fcc(k.value)] + c_effect_o(o[k]), list(o))
+
+
+def wf_effect(e):
+    t = e[0]
+    if t == "oglow":
+        return (e[1] >= 2) == (e[8] is not None)
+    if t == "iglow":
+        return (e[1] >= 2) == (e[8] is not None) and (e[1] >= 2) == (e[9] is not None)
+    if t == "bevel":
+        return (e[1] == 2) == (e[15] is not None)
+    return True
+
+
+def wf_effects(l):
+    ks = [k for k, _ in l[1]]
+    return len(set(ks)) == len(ks) and all(wf_effect(e) and FX_KIND[e[0]] in [kk for kk, names in FX_KEYS.items()
+                                                                              if k in [FXK[n] for n in names]] for k, e in l[1])
+
+
+def g_color(rng):
+    cid = rng.choice([0, 1, 2, 7, 8])
+    return [cid, [rng.choice([-32768, -1, 0, 32767]) if cid == 7 else g_u(rng, 2) for _ in range(4)]]
+
+
+def g_effect(rng, kind=None, wf=True):
+    t = kind or rng.choice(["common", "shadow", "oglow", "iglow", "bevel", "sofi"])
+    U4 = lambda: g_u(rng, 4)
+    B1 = lambda: rng.choice([0, 1, 255, rng.randrange(256)])
+    bm = rng.choice(blend_modes())
+    if t == "common":
+        return [t, U4(), B1()]
+    if t == "shadow":
+        return [t, U4(), U4(), U4(), g_i32(rng), U4(), g_color(rng), bm, B1(), B1(), B1(), g_color(rng)]
+    if t == "oglow":
+        v = rng.choice([0, 1, 2, 2, 3, U4()])
+        nat = g_color(rng) if v >= 2 else None
+        if not wf and rng.random() < 0.5:
+            v, nat = rng.choice([0, 1]), g_color(rng)              # native colour with an old version: written, not read back
+        return [t, v, U4(), U4(), g_color(rng), bm, B1(), B1(), nat]
+    if t == "iglow":
+        v = rng.choice([0, 1, 2, 2, 3, U4()])
+        return [t, v, U4(), U4(), g_color(rng), bm, B1(), B1(), B1() if v >= 2 else None, g_color(rng) if v >= 2 else None]
+    if t == "bevel":
+        v = rng.choice([0, 1, 2, 2, 2, 3])
+        real = [g_color(rng), g_color(rng)] if v == 2 else None
+        return [t, v, g_i32(rng), U4(), U4(), bm, rng.choice(blend_modes()), g_color(rng), g_color(rng),
+                B1(), B1(), B1(), B1(), B1(), B1(), real]
+    return [t, U4(), bm, g_color(rng), B1(), B1(), g_color(rng)]
+
+
+def g_effects(rng):
+    items, seen = [], set()
+    for _ in range(rng.choice([0, 1, 2, 4, 7])):
+        e = g_effect(rng, wf=rng.random() < 0.9)
+        k = FXK[rng.choice(FX_KEYS[FX_KIND[e[0]]])]
+        if k in seen:
+            continue
+        seen.add(k)
+        items.append([k, e])
+    return [rng.choice([0, 0, 1, 65535]), items]
+
+
+def run_effects(l, exc_code):
+    try:
+        o = obj_effects(l)
+    except Exception as e:
+        return None, {"stage": "build", "err": e}
+    f = io.BytesIO()
+    try:
+        n = o.write(f)
+    except Exception as e:
+        return [exc_code(e)], {"stage": "write", "err": e}
+    b = f.getvalue()
+    out = [0, n, h63_list(0, list(b))]
+    info = {"stage": None, "obj": o, "bytes": b, "written": n}
+    try:
+        y = type(o).frombytes(b)
+    except Exception as e:
+        info.update(stage="read", err=e)
+        return out + [exc_code(e), int(wf_effects(l))], info
+    cy, co = c_effects_o(y), c_effects_o(o)
+    f2 = io.BytesIO()
+    y.write(f2)
+    info.update(reread=y, eq=bool(y == o), same_canon=cy == co, rewrite_same=f2.getvalue() == b)
+    return out + [0, h63_list(0, cy), int(cy == co), int(wf_effects(l))], info
